@@ -137,3 +137,72 @@ Proof.
       * exact (Ph2 id N).
     + repeat (split; [assumption|]). exact (to_tough2_clean_lemma _ _ _ E).
 Qed.
+
+(** * short output through AUTOUGH2 -> TOUGH2 -> AUTOUGH2 *)
+Lemma resolve_block_ext d1 d2 it : grid_blocks d1 = grid_blocks d2 -> resolve_block d1 it = resolve_block d2 it.
+Proof. intro G. destruct it; try reflexivity. cbn. unfold grid_has_block. rewrite G. reflexivity. Qed.
+Lemma resolve_conn_ext d1 d2 it : grid_conns d1 = grid_conns d2 -> resolve_conn d1 it = resolve_conn d2 it.
+Proof. intro G. destruct it; try reflexivity. cbn. unfold grid_has_conn. rewrite G. reflexivity. Qed.
+
+(** the block / connection requests a TOUGH2 conversion files under FOFT / COFT *)
+Definition requested_blocks (d : data) : list item := from_opt (so_block (short_output d)) (hist_block d).
+Definition requested_conns (d : data) : list item := from_opt (so_conn (short_output d)) (hist_conn d).
+Definition short_round_trip_spec (d d'' : data) : Prop :=
+  so_block (short_output d'') = some_if_nonempty (filter is_block (map (resolve_block d) (requested_blocks d))) /\
+  so_conn (short_output d'') = some_if_nonempty (filter is_conn (map (resolve_conn d) (requested_conns d))) /\
+  so_freq (short_output d'') = None /\
+  (forall l it, so_gen (short_output d'') = Some l -> In it l ->
+     exists id, it = IGen id /\ In id (genlist d'') /\ keepable (g_type (hget id (heap d))) = true) /\
+  genlist d'' = filter (fun id => keepable (g_type (hget id (heap d)))) (genlist d) /\
+  hist_block d'' = [] /\ hist_conn d'' = [] /\ hist_gen d'' = [] /\
+  grid_blocks d'' = grid_blocks d /\ grid_conns d'' = grid_conns d.
+
+Theorem short_round_trip_lemma mp mp' sim eos d d' d'' :
+  convert_to_TOUGH2 mp d = Ok d' -> convert_to_AUTOUGH2 mp' sim eos d' = Ok d'' -> short_round_trip_spec d d''.
+Proof.
+  intros E H. pose proof (to_tough2_preserves_lemma _ _ _ E) as P.
+  destruct P as (Pb & Pc & _ & Pgl & _ & _ & Phb & Phc & _).
+  pose proof (to_autough2_mirror_lemma _ _ _ _ _ H) as M.
+  destruct M as (_ & _ & _ & Hb & Hc & Hg & _ & _ & _ & _ & _ & _ & _ & _ & _ & _ & _ & Gb & Gc & _ & Hh & Hl & _ & Hs & _).
+  unfold short_round_trip_spec, requested_blocks, requested_conns. rewrite Hs, Hl, Gb, Gc.
+  unfold au_short. cbn [so_freq so_block so_conn so_gen].
+  unfold history_blocks_to_short, history_conns_to_short. rewrite Phb, Phc.
+  split. { f_equal. f_equal. apply map_ext. intro it. apply resolve_block_ext. exact Pb. }
+  split. { f_equal. f_equal. apply map_ext. intro it. apply resolve_conn_ext. exact Pc. }
+  split; [reflexivity|]. split.
+  - intros l it G I. unfold history_gens_to_short in G.
+    apply (In_from_some_if_nonempty _ _ _ G) in I. apply in_map_iff in I. destruct I as (id & <- & If).
+    apply filter_In in If. destruct If as [Ig _]. exists id. split; [reflexivity|]. split; [exact Ig|].
+    rewrite Pgl in Ig. apply filter_In in Ig. exact (proj2 Ig).
+  - split; [exact Pgl|]. repeat (split; [assumption|]). exact Pc.
+Qed.
+
+(** non-empty requests held as objects of the grid come back as the same short-output lists; the conversion back
+    exists whenever SOLVR (which convert_to_TOUGH2 does not touch) has no non-integer type *)
+Theorem short_objects_round_trip_lemma mp mp' sim eos d d' lb lc :
+  convert_to_TOUGH2 mp d = Ok d' -> solver_ok d ->
+  so_block (short_output d) = Some lb -> so_conn (short_output d) = Some lc -> lb <> [] -> lc <> [] ->
+  Forall (fun it => is_block it = true) lb -> Forall (fun it => is_conn it = true) lc ->
+  exists d'', convert_to_AUTOUGH2 mp' sim eos d' = Ok d'' /\
+    so_block (short_output d'') = Some lb /\ so_conn (short_output d'') = Some lc.
+Proof.
+  intros E S Sb Sc Nb Nc Fb Fc.
+  assert (S' : solver_ok d').
+  { pose proof (to_tough2_preserves_lemma _ _ _ E) as P. destruct P as (_ & _ & _ & _ & _ & _ & _ & _ & _ & Psv & _).
+    unfold solver_ok. rewrite Psv. exact S. }
+  destruct (to_autough2_total_lemma mp' sim eos d' S') as [d'' H]. exists d''. split; [exact H|].
+  destruct (short_round_trip_lemma _ _ _ _ _ _ _ E H) as (Rb & Rc & _).
+  unfold requested_blocks in Rb. unfold requested_conns in Rc. rewrite Sb in Rb. rewrite Sc in Rc. cbn [from_opt] in Rb, Rc.
+  rewrite (resolve_filter_blocks d lb Fb) in Rb. rewrite (resolve_filter_conns d lc Fc) in Rc.
+  split; [rewrite Rb; destruct lb; [contradiction|reflexivity]|rewrite Rc; destruct lc; [contradiction|reflexivity]].
+Qed.
+
+(** the example AUTOUGH2 model makes the round trip: its one short-output block comes back, the frequency does not *)
+Lemma ex_short_round_trip_lemma :
+  on_ok (convert_to_TOUGH2 false ex_au) (fun d' =>
+    on_ok (convert_to_AUTOUGH2 false (s2l default_simulator) (s2l default_eos) d') (fun d'' =>
+      match so_block (short_output d''), so_freq (short_output d''), so_freq (short_output ex_au) with
+      | Some [IBlock a], None, Some _ => str_eqb a (s2l "  a 1")
+      | _, _, _ => false
+      end)) = true.
+Proof. vm_compute. reflexivity. Qed.
